@@ -31,7 +31,7 @@ def check(ctx, src):
              "and the `_hyx_` fix-up re-establishes the `_hy_` prefix")
     hf = src.hy(REL)
     g = hf.defn("gensym")
-    ctx.require(g is not None, "defn gensym not found in hy/core/util.hy")
+    ctx.need(g is not None, "defn gensym not found in hy/core/util.hy")
     ctx.functions.add(f"{REL}:gensym")
     body = g.items[3:] if g.items[2].kind == "list" else g.items[2:]
 
@@ -85,7 +85,7 @@ def check(ctx, src):
             else:
                 ctx.bad("LOCK-REGION", key, f"`{COUNTER}` is accessed outside the region protected by `{LOCK}`", REL, n.line,
                         witness="thread A reads the counter here while thread B is between its increment and its copy: both get the same number")
-    ctx.require(inits == 1, f"expected exactly one module-level initialisation of {COUNTER}, found {inits}")
+    ctx.need(inits == 1, f"expected exactly one module-level initialisation of {COUNTER}, found {inits}")
 
     # --- region advances the counter and copies it ----------------------------------
     advance = copyvar = None
@@ -145,7 +145,7 @@ def check(ctx, src):
 
     # --- the name -----------------------------------------------------------------
     fmts = [n for n in g.walk() if n.kind == "expr" and n.head() == ".format"]
-    ctx.require(len(fmts) >= 1, "gensym no longer builds its name with .format (anchor vanished)")
+    ctx.need(len(fmts) >= 1, "gensym no longer builds its name with .format (anchor vanished)")
     f = fmts[0]
     tmpl = f.items[1]
     args = f.items[2:]
